@@ -119,6 +119,7 @@ Section Sim.
       apply cache_find_Some in Ec as [k' [Hin Hfst]]. destruct (HC k' r0 Hin) as [g [Hg [Hk' [i Hi]]]].
       assert (Hko : fst k = outs f).
       { destruct (dagon || cached f && has_cache p); [|discriminate]. unfold cache_key in Ek.
+        destruct (existsb (is_output p) (akeys kw)); [discriminate|].
         destruct (key_items p kw f ra); inversion Ek. reflexivity. }
       assert (g = f).
       { apply (same_output_same_func p ls Hwf g f o Hg Hf); [|assumption]. rewrite <- Hk', <- Hfst, Hko. assumption. }
@@ -153,6 +154,7 @@ Section Sim.
     destruct (if dagon || cached f && has_cache p then cache_key p kw f ra else None) as [k|] eqn:Ek; [|exact Hold].
     intros k0 r0 [E|Hin]; [|exact (Hold k0 r0 Hin)]. inversion E; subst k0 r0. exists f. split; [assumption|]. split.
     - destruct (dagon || cached f && has_cache p); [|discriminate]. unfold cache_key in Ek.
+      destruct (existsb (is_output p) (akeys kw)); [discriminate|].
       destruct (key_items p kw f ra); inversion Ek. reflexivity.
     - apply Hall. rewrite (needed_S p kw), Ef. now left.
   Qed.
